@@ -46,6 +46,14 @@ func init() {
 			cache.InitCache()
 		})
 		ctx := context.Background()
+		// a namespace that InitCache does not know (the `preview_event:<name>` kind) is set up by its
+		// first Read, which is also what its only user, the onPreview event, does first
+		for _, op := range opsList {
+			if op.NS != "" {
+				var v any
+				cache.Read(op.NS, "\x00verif-init", &v)
+			}
+		}
 		cache.Clear(ctx)
 		out := make([]c30Res, len(opsList))
 		for i, op := range opsList {
